@@ -23,3 +23,19 @@ func reducerBroadcasted(y tensor.Tensor, x tensor.Tensor, dim int) (o tensor.Ten
 
 	return o, nil
 }
+
+// patchedBlock returns the block of the patch target that source p was written to:
+// an omitted or {0,0} range places the source at offset 0 (it does not mean the whole target dimension).
+func patchedBlock(index []tensor.Range, p tensor.Tensor) (block []tensor.Range) {
+	shape := p.Shape()
+	block = make([]tensor.Range, len(shape))
+	for i := range block {
+		if i >= len(index) || (index[i].From == 0 && index[i].To == 0) {
+			block[i] = tensor.Range{From: 0, To: shape[i]}
+		} else {
+			block[i] = index[i]
+		}
+	}
+
+	return block
+}
